@@ -1,0 +1,7 @@
+//go:build verif
+
+package cli
+
+// ParseAddressForVerif exposes the unexported CLI address parser to the verification harness.
+// Compiled only with the `verif` build tag.
+var ParseAddressForVerif = parseAddress
